@@ -2,6 +2,7 @@ package revocation
 
 import (
 	"crypto/rand"
+	"github.com/privacybydesign/gabi/internal/simhook"
 	"time"
 
 	"github.com/go-errors/errors"
@@ -188,6 +189,7 @@ func NewProofCommit(key *gabikeys.PublicKey, witn *Witness, randomizer *big.Int)
 	// only read on this path.
 	local := *witn
 	local.randomizer = randomizer
+	simhook.Yield("NewProofCommit:after-local-copy")
 
 	if !proofstructure.isTrue((*witness)(&local), local.SignedAccumulator.Accumulator.Nu, key.N) {
 		return nil, nil, errors.New("non-revocation relation does not hold")
@@ -339,6 +341,7 @@ func (w *Witness) Update(pk *gabikeys.PublicKey, update *Update) error {
 	}
 
 	// Update witness state only now after all possible errors have not occurred
+	simhook.Yield("Witness.Update:before-assign")
 	w.U = newU
 	w.SignedAccumulator = update.SignedAccumulator
 	w.Updated = time.Unix(newAcc.Time, 0)
